@@ -168,9 +168,9 @@ pub fn check(c: &Case) -> Outcome {
         }
         if t_eval.is_none() {
             let tl = t_last.unwrap();
-            // "to rounding": the handler's 1e-12 plus the solvers' own step-size resolution
-            // 10*uround*|x| (about 21 ulp; a shorter remaining step cannot be taken)
-            if !((tl - xend).abs() <= 1e-12 + 8.0 * tslack(tl)) {
+            // "to rounding": the solvers' own step-size resolution 10*uround*|x| (about 21 ulp; a shorter
+            // remaining step cannot be taken) -- 32 ulp
+            if !((tl - xend).abs() <= 8.0 * tslack(tl)) {
                 return Outcome::viol(format!("{}: Success but last sample {:e} is not xend={:e} (diff {:e}; first_step={:?}, max_step={:?})", desc, tl, xend, tl - xend, first_step, max_step));
             }
         }
@@ -183,7 +183,7 @@ pub fn check(c: &Case) -> Outcome {
         }
         // the stepper itself must have reached xend
         if let Some(&te) = log.ev_t.last() {
-            if !real_events && !((te - xend).abs() <= 1e-12 + 8.0 * tslack(te)) {
+            if !real_events && !((te - xend).abs() <= 8.0 * tslack(te)) {
                 return Outcome::viol(format!("{}: Success but the last accepted step ended at {:e}, not xend={:e}", desc, te, xend));
             }
         }
@@ -301,7 +301,7 @@ pub fn run(ctx: &Ctx, known: &[Known]) -> Report {
         id: "C03".into(),
         rule: "cases = benign closed-form problems (n<=4, incl. zero and constant right-hand sides) x x0 in +-[0,1e3] x |span| = 10^U[-11.4,6] either direction (or an infinite interval stopped by a terminal event) x all six methods x first_step {none, |span|*10^U[-3,1] of either sign, exact fractions} x max_step {none, inf, span/k exactly (k=1..12), span*10^U[-2,2]} x t_eval x dense_output x non-terminal events x max_steps. Oracle over the returned Solution and an instrumented IVP that records the time of every ode/events/jac call. Non-trivial = at least one of first_step/max_step/t_eval/events given, backward, infinite, |span|<1e-6 or >1e4. Distinct = distinct canonical JSON.".into(),
         assumptions: vec![
-            "time slack tau = 4 ulp of max(|x0|,|xend|,|t|); 'last sample is xend to rounding' = within 1e-12 (the handler's documented resolution) + 32 ulp (the solvers' step-size resolution 10*uround*|x| is about 21 ulp)".into(),
+            "time slack tau = 4 ulp of max(|x0|,|xend|,|t|); 'last sample is xend to rounding' = within 32 ulp (the solvers' step-size resolution 10*uround*|x| is about 21 ulp)".into(),
             "RK4 with a first_step of the wrong sign returns Err(InvalidStepSize) as documented: counted as trivial".into(),
             "panics / budget overruns are owned by C04 and counted as trivial here".into(),
         ],
